@@ -134,6 +134,24 @@ def run(R):
         v = variants[(k + R.shard) % 8]
         substitutions(rng.choice([-1, 0, rng.randrange(-128, 128)]), rng.randbytes(32) if k else bytes(32), *v)
         R.cover('subst_variants', v)
+    # addresses whose checksum is special: all its set bits inside ONE text character (so that a single substitution can zero the whole checksum field), a checksum with
+    # a zero byte, checksum 0xFFFF-like patterns - found by search with the reference CRC, then every substitution as above
+    want_classes = {'crc-bits-in-char-45': lambda c: c and not (c & 0x0FFF), 'crc-bits-in-char-46': lambda c: c and not (c & 0xF03F), 'crc-bits-in-char-47': lambda c: c and not (c & 0xFFC0),
+                    'crc-high-byte-zero': lambda c: c < 256 and c, 'crc-low-byte-zero': lambda c: c and not (c & 0xFF)}
+    found = {}
+    for i in range(400000):
+        if len(found) == len(want_classes):
+            break
+        wc_, hp_ = rng.choice([0, -1]), rng.randbytes(32)
+        v = variants[i % 8]
+        tag = (0x11 if v[0] else 0x51) | (0x80 if v[1] else 0)
+        c = crcref.crc16_xmodem(bytes([tag, wc_ & 0xFF]) + hp_)
+        for name, pred in want_classes.items():
+            if name not in found and pred(c):
+                found[name] = (wc_, hp_, v)
+    for name, (wc_, hp_, v) in found.items():
+        substitutions(wc_, hp_, *v)
+        R.cover('special_checksum_classes', name)
     # an address of a subclass of Address (applications subclass it) is an address: equal to, and hashing like, a plain one with the same workchain and id
     class _SubAddress(Address):
         pass
@@ -153,6 +171,7 @@ def run(R):
         R.floor('workchains', 256, 'set')
     R.floor('substitutions', 48 * 63 * min(n_sub, 2))
     R.floor('rerenders_of_parsed', 1000)
+    R.floor('special_checksum_classes', 5, 'set')
 
 
 def replay(R, w, rec):
